@@ -32,6 +32,9 @@ func Check() *common.Check {
 	return &common.Check{
 		ID:    "C09",
 		Level: "model_checking",
+		// every case is recorded before it runs: a fatal error or a hang of the worker is attributed to it
+		CrashSafe: true,
+		MemLimit:  8 << 30,
 		Rule: "cleanliness: one case per (pooled type found in pkg/sql/ast/*.go, field, release path, fill variation); non-trivial = the field was non-zero before release and the very same object (pointer identity) was obtained back from the pool. " +
 			"ownership: one case per operation history of length 1..4 (quick) / 1..5 (thorough) over 23 operations, executed from empty pools with the collector off; distinct = distinct operation sequence; " +
 			"non-trivial = a pooled node released earlier in the history is part of a tree handed out later in the same history (the pools really recycled). " +
